@@ -1,5 +1,6 @@
 import Psa.RegistryProofs
 import Psa.Shipped
+import Psa.ValidateProofs
 /-! # C04 — a pinned policy version runs exactly the check revisions of that version
 `populate` / `inflate` / `evaluate` are the loop-level model of policy/registry.go; `spec` (Psa/RegistrySpec.lean) is the
 resolution rule stated outright: per check introduced at or before V the last revision with minimum ≤ V; baseline ids
@@ -28,6 +29,34 @@ theorem C04_latest_is_newest {α : Type} (cs : List (Check α)) (hwf : WellForme
 /-- the shipped check set is accepted by the (model of the) validator -/
 theorem C04_shipped_accepted : validateChecks shipped = true := by decide
 
+/-- **refusal**: on the domain where every registered revision version is `latest`, the zero value or `v1.N` (all that
+    `api.LatestVersion`, `api.Version{}` and `api.MajorMinorVersion(1, _)` can produce), the validator accepts a check set
+    if and only if it is well formed: distinct ids, level baseline or restricted, at least one revision, every revision
+    version a proper `v1.N` (not unset, not latest), strictly increasing, overrides only on restricted checks and only
+    of baseline checks (or of ids that are not registered). -/
+theorem C04_refuses {α : Type} (cs : List (Check α)) (hd : OneMajorDomain cs) : validateChecks cs = true ↔ WellFormed cs :=
+  validateChecks_iff cs hd
+
+/-- so that whatever the validator accepts resolves by the rule -/
+theorem C04_accepted_resolves {α : Type} (cs : List (Check α)) (hd : OneMajorDomain cs) (hok : validateChecks cs = true)
+    (l : Level) (v : Ver) (hv : v = .latest ∨ ∃ n, v = .mm 1 n) :
+    (populate cs).evaluate l v = spec cs l (clampV (maxVersionOf cs).minor v) :=
+  PSA.C04_resolves cs ((validateChecks_iff cs hd).mp hok) l v hv
+
+/-- non-vacuity: the demo set is in the domain and accepted; each kind of malformed set of the property text is refused -/
+example : validateChecks demo = true := by decide
+example : validateChecks (demo ++ demo.take 1) = false := by decide                                             -- duplicate id
+example : validateChecks [({ id := b!"x", level := .baseline, revs := [] } : Check String)] = false := by decide  -- no revision
+example : validateChecks [({ id := b!"x", level := .baseline, revs := [⟨.unset, "f", []⟩] } : Check String)] = false := by decide
+example : validateChecks [({ id := b!"x", level := .baseline, revs := [⟨.latest, "f", []⟩] } : Check String)] = false := by decide
+example : validateChecks [({ id := b!"x", level := .baseline, revs := [⟨.mm 1 3, "f", []⟩, ⟨.mm 1 3, "g", []⟩] } : Check String)] = false := by decide
+example : validateChecks [({ id := b!"x", level := .baseline, revs := [⟨.mm 1 3, "f", []⟩, ⟨.mm 1 2, "g", []⟩] } : Check String)] = false := by decide
+example : validateChecks [({ id := b!"x", level := .privileged, revs := [⟨.mm 1 0, "f", []⟩] } : Check String)] = false := by decide
+example : validateChecks [({ id := b!"x", level := .other, revs := [⟨.mm 1 0, "f", []⟩] } : Check String)] = false := by decide
+example : validateChecks [({ id := b!"x", level := .baseline, revs := [⟨.mm 1 0, "f", [b!"y"]⟩] } : Check String)] = false := by decide  -- override by baseline
+example : validateChecks [({ id := b!"x", level := .restricted, revs := [⟨.mm 1 0, "f", [b!"y"]⟩] } : Check String),
+                          { id := b!"y", level := .restricted, revs := [⟨.mm 1 0, "g", []⟩] }] = false := by decide  -- override of restricted
+
 /-- non-vacuity: a well-formed set with an override, and what it resolves to -/
 example : (populate demo).evaluate .restricted (.mm 1 19) = spec demo .restricted 19 := by decide
 
@@ -35,4 +64,6 @@ example : (populate demo).evaluate .restricted (.mm 1 19) = spec demo .restricte
 #print axioms C04_privileged
 #print axioms C04_latest_is_newest
 #print axioms C04_shipped_accepted
+#print axioms C04_refuses
+#print axioms C04_accepted_resolves
 end PSA.Props
